@@ -7,7 +7,10 @@
     and os._exit()s immediately before event k (Python's write buffer is lost, exactly as with SIGKILL);
     the file left behind is loaded with numpy and must (i) equal one of the logical contents between
     the last flush and the kill (direct oracle, independent of the model) and (ii) equal the model's
-    predicted content for that step prefix (or the previous prefix: the last write may still be buffered).
+    predicted content for that step prefix (or the previous prefix: the last write may still be buffered);
+(b') every history is performed a second time by a PURE WRITER (no len / contains / read between the operations: a read
+    creates the memmap, which pushes Python's write buffer to the file and so hides what a killed writer-only process
+    leaves behind); numpy.load after every flush/close and the kill-point window oracle (i) are applied to it as well.
 """
 import os
 import pickle
@@ -24,7 +27,8 @@ from common import Infra
 META = dict(
     rule='a case = (dtype, row shape, batch size, operation sequence over set/del/clear/flush/close/reopen/reopenN/pickle); '
          'every low-level file event of the sequence is a kill point (all of them in thorough, a stratified third in '
-         'quick). Non-trivial = sequence with >= 1 append and >= 1 of {overwrite, del, clear, reopen, pickle}; distinct by full content',
+         'quick); each history runs twice: observed after every operation, and as a pure writer with its own kill points '
+         '(always before every flush event, half the sampling rate elsewhere). Non-trivial = sequence with >= 1 append and >= 1 of {overwrite, del, clear, reopen, pickle}; distinct by full content',
     trusted_base=['kill = os._exit() in a forked child immediately before the k-th file-object operation (write / truncate / '
                   'flush, including those numpy.memmap issues): unflushed Python buffers are lost as with SIGKILL',
                   'Linux page cache: completed write/ftruncate/memmap stores are visible to a later reader in program order',
@@ -118,8 +122,8 @@ def tokens_of(arr):
 class Runner:
     """executes an op sequence on a real NpyStore; records observations and file events per op"""
 
-    def __init__(self, case, path, kill_at=None):
-        self.case, self.path = case, path
+    def __init__(self, case, path, kill_at=None, observe=True):
+        self.case, self.path, self.observe = case, path, observe
         self.log, self.ctl = [], dict(count=0, kill_at=kill_at)
         self.b, self.shape, self.dtype = case['b'], tuple(case['shape']), np.dtype(case['dtype'])
         self.store = wrap(NpyStore(path, self.b), self.log, self.ctl)
@@ -153,6 +157,12 @@ class Runner:
         except IndexError:
             err = 'IndexError'
         s = self.store
+        if not self.observe:
+            # a pure writer: no reads between the operations (a read goes through the memmap, whose creation pushes Python's
+            # write buffer to the file - an observer would hide what a writer-only process leaves behind when it is killed)
+            ob = dict(err=err, events=self.log[n0:])
+            self.obs.append(ob)
+            return ob
         ob = dict(err=err, n=len(s), events=self.log[n0:])
         ob['contains'] = [i in s for i in range(len(s) + 2)]
         if not s.array.closed and s.array.initialized:
@@ -278,11 +288,11 @@ def logical_history(ops, b, obs):
     return None
 
 
-def crash_child(case, path, kill_at):
+def crash_child(case, path, kill_at, observe=True):
     pid = os.fork()
     if pid == 0:
         try:
-            r = Runner(case, path, kill_at=kill_at)
+            r = Runner(case, path, kill_at=kill_at, observe=observe)
             for op in case['ops']:
                 r.do(op)
         except BaseException:                                   # noqa
@@ -311,6 +321,21 @@ def one_case(ctx, case, tmp, kills=True):
     arr = r.store.array
     hlen, row_bytes = arr.header_length, (int(np.prod(r.shape)) * r.dtype.itemsize)
     n_events = len(r.log)
+    # the same history by a pure writer (no reads in between)
+    pathb = path + '.blind.npy'
+    rb = Runner(case, pathb, observe=False)
+    for op in case['ops']:
+        ob = rb.do(op)
+        if op['op'] in ('flush', 'close', 'reopen', 'reopenN', 'pickle') and ob['err'] is None:
+            ob['load'] = load_tokens(pathb)
+    try:
+        rb.store.close()
+    except Exception:                                             # noqa
+        pass
+    try:
+        os.remove(pathb)
+    except OSError:
+        pass
     # leave the file as a killed process would (no close/__del__ effects needed for the in-process run)
     kinds = [o['op'] for o in case['ops']]
     nontriv = any(o['op'] == 'set' for o in case['ops']) and any(k in kinds for k in ('del', 'clear', 'reopen', 'pickle', 'reopenN'))
@@ -324,7 +349,7 @@ def one_case(ctx, case, tmp, kills=True):
     mreq = dict(op='C06.run', b=b, ops=[dict(op=o['op'], **({'i': o['i']} if 'i' in o else {}),
                                               **({'batch': [o['tok']] * b} if 'tok' in o else {}),
                                               **({'n': o['n']} if 'n' in o else {})) for o in case['ops']])
-    return dict(case=case, runner=r, path=path, hlen=hlen, row_bytes=row_bytes, n_events=n_events, mreq=mreq)
+    return dict(case=case, runner=r, blind=rb, path=path, hlen=hlen, row_bytes=row_bytes, n_events=n_events, mreq=mreq)
 
 
 def spec_contents(case, obs):
@@ -407,6 +432,19 @@ def check_case(ctx, info, ans, tmp):
         if info['hlen'] and real != pred:
             corr('fileops', where, pred, real)
     ctx.count('traces_equal', 'no' if broke[0] else 'yes')
+    # ---- (a') the same history performed by a pure writer: same outcomes, and the same file after every flush / close
+    rb = info['blind']
+    for j, (op, ob, obb) in enumerate(zip(case['ops'], r.obs, rb.obs)):
+        where = dict(case, at_op=j, blind=True)
+        if obb['err'] != ob['err']:
+            ctx.fail_input(where, 'op %d (%s) ends with %r when the store is only written to, and with %r when it is also read in between'
+                           % (j, op['op'], obb['err'], ob['err']), ob['err'], obb['err'])
+            return
+        if 'load' in obb and obb['load'] != rows[j]:
+            if not (obb['load'] == 'LOADFAIL' and not any(o['op'] == 'set' and rr['err'] is None for o, rr in zip(case['ops'][:j + 1], r.obs))):
+                ctx.fail_input(where, 'writer-only history: after %s at op %d numpy.load gives %s, the in-memory sequence holds %s'
+                               % (op['op'], j, obb['load'], rows[j]), rows[j], obb['load'])
+                return
     # ---- (b) crash points
     if not info.get('kills'):
         return
@@ -448,6 +486,33 @@ def check_case(ctx, info, ans, tmp):
         cands += mdl[j]['loads']
         if got not in cands:
             corr('crash-prefix', where, cands, got)
+    # ---- (b') crash points of the pure writer (direct window oracle only)
+    ev_opb = []
+    for j, ob in enumerate(rb.obs):
+        for q in range(len(ob['events'])):
+            ev_opb.append((j, q))
+    for k in info.get('blind_kill_points', []):
+        j, q = ev_opb[k] if k < len(ev_opb) else (len(case['ops']) - 1, None)
+        path_k = os.path.join(tmp, 'kb%d_%d.npy' % (ctx.evaluations, k))
+        crash_child(case, path_k, k, observe=False)
+        got = load_tokens(path_k) if os.path.exists(path_k) else 'NOFILE'
+        try:
+            os.remove(path_k)
+        except OSError:
+            pass
+        ctx.extra['kills_writer_only'] = ctx.extra.get('kills_writer_only', 0) + 1
+        f = max([i for i in range(j) if case['ops'][i]['op'] in flush_like and rb.obs[i]['err'] is None
+                 and rb.obs[i].get('load') not in (None, 'LOADFAIL')] + [-1])
+        where = dict(case, kill_before_event=k, in_op=j, blind=True)
+        if f < 0:
+            ctx.count('kill-writer-only', 'before-first-flush')
+            continue
+        window = [rows[i] for i in range(f, j + 1)]
+        ctx.count('kill-writer-only', 'ok' if got in window else 'bad')
+        if got not in window:
+            ctx.fail_input(where, 'writer-only history killed before file event %d (in op %d = %s, last flush at op %d): numpy.load gives %s, '
+                           'logical contents since the flush were %s' % (k, j, case['ops'][j]['op'], f, got, window), window, got)
+            return
 
 
 def process(ctx, cases, kill_fraction):
@@ -464,6 +529,10 @@ def process(ctx, cases, kill_fraction):
                 pts = [k for k in pts if ctx.rng.random() < kill_fraction or k in (0, n)]
             info['kills'] = True
             info['kill_points'] = pts
+            evb = [e[0] for ob in info['blind'].obs for e in ob['events']]
+            # writer-only kill points: always before every flush/close-time event that follows buffered writes, a sample of the rest
+            info['blind_kill_points'] = [k for k in range(len(evb) + 1)
+                                         if kill_fraction >= 1 or (k < len(evb) and evb[k] == 'flush') or ctx.rng.random() < kill_fraction / 2]
             infos.append(info)
         if not ctx.driver_ok:
             for info in infos:
@@ -552,6 +621,13 @@ def replay(ctx, case):
         info = one_case(ctx, base, tmp)
         info['kills'] = True
         info['kill_points'] = [case['kill_before_event']] if 'kill_before_event' in case else list(range(info['n_events'] + 1))
+        nb = sum(len(ob['events']) for ob in info['blind'].obs)
+        info['blind_kill_points'] = list(range(nb + 1))
+        if 'kill_before_event' in case:
+            if case.get('blind'):
+                info['kill_points'], info['blind_kill_points'] = [], [case['kill_before_event']]
+            else:
+                info['blind_kill_points'] = []
         a = ctx.lean.drive([info['mreq']])[0]
         check_case(ctx, info, a, tmp)
         return dict(observations=[dict(op=o, err=ob['err'], n=ob['n'], content=ob['content'], load=ob.get('load'))
